@@ -22,6 +22,8 @@ import (
 	"verifharness/sl/c04"
 	"verifharness/sl/c05"
 	"verifharness/sl/c09"
+	"verifharness/sl/c15"
+	"verifharness/sl/c19"
 )
 
 var cmds = map[string]func([]string) int{
@@ -37,9 +39,11 @@ var cmds = map[string]func([]string) int{
 	"C12": c12.Main,
 	"C13": c13.Main,
 	"C14": c14.Main,
+	"C15": c15.Main,
 	"C16": c16.Main,
 	"C17": c17.Main,
 	"C18": c18.Main,
+	"C19": c19.Main,
 	"C20": c20.Main,
 }
 
